@@ -220,6 +220,10 @@ def binop(I, st, op, a, b, inplace=False):
     if models.is_flagval(a) or models.is_flagval(b):
         yield from models.flag_binop(I, st, op, a, b)
         return
+    from .values import Inf as _Inf
+
+    if isinstance(a, _Inf) or isinstance(b, _Inf):
+        raise Unsupported("arithmetic on float('inf')")
     if a is None or b is None or not (is_number(a) and is_number(b)):
         yield st, exc("TypeError", "unsupported operand type(s) for %s: %r %r" % (op, type(a).__name__, type(b).__name__))
         return
